@@ -73,6 +73,46 @@ class RealConn:
         self.real.close()
         self.shim.tick("close-db")
 
+    def __enter__(self):
+        return self
+
+    def __exit__(self, et, ev, tb):
+        if et is None:
+            self.commit()
+        elif issubclass(et, Exception):
+            self.real.rollback()
+        return False
+
+    def cursor(self):
+        conn = self
+
+        class _Cur:
+            def __init__(self_):
+                self_._c = None
+                self_.lastrowid, self_.rowcount = None, -1
+
+            def execute(self_, sql, params=()):
+                self_._c = conn.execute(sql, params)
+                self_.lastrowid, self_.rowcount = self_._c.lastrowid, self_._c.rowcount
+                return self_
+
+            def executescript(self_, script):
+                conn.executescript(script)
+                return self_
+
+            def fetchone(self_):
+                return self_._c.fetchone()
+
+            def fetchall(self_):
+                return self_._c.fetchall()
+
+            def __iter__(self_):
+                return iter(self_._c)
+
+            def close(self_):
+                pass
+        return _Cur()
+
     def __getattr__(self, n):
         return getattr(self.real, n)
 
